@@ -1,6 +1,7 @@
 package props
 
 import (
+	hclog "github.com/hashicorp/go-hclog"
 	"io"
 	"log"
 	"os"
@@ -27,6 +28,7 @@ func TestMain(m *testing.M) {
 	}
 	// the library logs accept errors etc. through the std logger; keep the test output readable
 	log.SetOutput(io.Discard)
+	hclog.DefaultOutput = io.Discard
 	code := m.Run()
 	if scratchPath != "" {
 		os.RemoveAll(scratchPath)
